@@ -66,7 +66,7 @@ class ClassWorld:
     props = ('C12', 'C13', 'C14')
     levels = {'C12': 'exploration', 'C13': 'exploration', 'C14': 'exploration'}
     chunk = 250
-    budget = {'quick': dict(runs=12000, wall=45.0), 'thorough': dict(runs=600000, wall=900.0)}
+    budget = {'quick': dict(runs=12000, wall=180.0), 'thorough': dict(runs=600000, wall=900.0)}
     time_unit = 'n/a: logical steps only'
     state_measure = 'distinct (hierarchy shape, classes owning a copied Parameter, instances with own Parameter copies, op kind) tuples'
     components = {'real': ['ParameterizedMetaclass.__setattr__/get_param_descriptor (copy-on-write)', 'Parameter.__get__/__set__, instance_descriptor, '
